@@ -171,6 +171,7 @@ def _run(sc, tape):
     w = World(tape, policy=('sticky', 0.3), step_cap=400000, start_time=1.7e9 + sc['frac'])
     sched = w.sched
     clock = w.clock
+    w.fs.mtime_res = sc.get('mtime_res')
 
     w.extra_patches.append((times, 'datetime', C.datetime_module(clock)))
     w.extra_patches.append((seeder, 'queue_class', SimQueue))
@@ -379,7 +380,7 @@ def _run(sc, tape):
             if not any((a[0] is None or e['gen'] & 255 == a[0]) and U.covers(e['bbox'], c) for e in ok_calls):
                 raise Bad('unattributable-rewrite', '%s: tile %s changed from %r to %r without a successful fetch covering it' % (
                     what, c, b, a))
-            if a[0] is not None and (b is None or a[0] != b[0]) and not (int(t_begin) <= a[1] <= clock.now + 1e-6):
+            if a[0] is not None and (b is None or a[0] != b[0]) and not (int(t_begin / (sc.get('mtime_res') or 1.0)) * (sc.get('mtime_res') or 1.0) <= a[1] <= clock.now + 1e-6):
                 # "last written at": what the backend records for a tile written during this request is the time of that
                 # write (whole seconds for the sqlite backends), whatever the source says about the age of its data
                 raise Bad('write-time-not-recorded', '%s: tile %s was written during this request (%s .. %s) but the cache '
